@@ -142,7 +142,8 @@ def getInsts (j : Json) : Except String (M (List Inst)) :=
     pure (pure l)
   | _ => do
     let t ← j.getObjValAs? String "text"
-    pure (parseListing t.toList)
+    -- the text is the content of a listing FILE: it reaches the parser through Python's text layer
+    pure (parseListing (universalNewlines t.toList))
 
 /-- a document field: `{"err": _}` = the file could not be read / parsed, otherwise the YAML value -/
 def getDoc (j : Json) : Except String (M Y) :=
@@ -230,11 +231,10 @@ def handle (st : Config) (j : Json) : Except String (Config × Json) := do
     let expectArgs : Option (List Str) := match j.getObjVal? "objdumpArgs" with
       | .ok (.arr a) => some (a.toList.filterMap fun x => match x with | .str s => some s.toList | _ => none)
       | _ => none
-    let w : World := {
-      readFile := fun _ => input,
-      objdump := fun args _ => match expectArgs with
+    let w : World := World.ofRaw (fun _ => input)
+      (fun args _ => match expectArgs with
         | some ea => if ea = args then input else unsup "objdump output supplied for other arguments"
-        | none => input }
+        | none => input)
     let o : Op := {
       doc := doc, macroDocs := mds,
       kind := if kind == "binary" then .binary else .assembly,
